@@ -1,0 +1,74 @@
+//! Read-only observation points for the external verification harness.
+//! Compiled only with `--cfg ax_verif`; nothing here is reachable in a normal build.
+
+use crate::axecutor::Axecutor;
+use crate::helpers::trace::TraceVariant;
+
+/// One entry of the structured control-flow trace: (instr_ip, target, variant, level, count)
+/// variant: 0 = call, 1 = return, 2 = jump
+pub type VerifTraceEntry = (u64, u64, u8, i16, u64);
+
+impl Axecutor {
+    pub fn verif_rflags(&self) -> u64 {
+        self.state.rflags
+    }
+
+    pub fn verif_set_rflags(&mut self, value: u64) {
+        self.state.rflags = value;
+    }
+
+    pub fn verif_finished(&self) -> bool {
+        self.state.finished
+    }
+
+    pub fn verif_executed_instructions_count(&self) -> u64 {
+        self.state.executed_instructions_count
+    }
+
+    pub fn verif_max_instructions(&self) -> Option<u64> {
+        self.state.max_instructions
+    }
+
+    pub fn verif_code_end_addr(&self) -> u64 {
+        self.code_end_addr
+    }
+
+    pub fn verif_stack_top(&self) -> u64 {
+        self.stack_top
+    }
+
+    pub fn verif_hooks_running(&self) -> bool {
+        self.hooks.running
+    }
+
+    pub fn verif_call_stack(&self) -> Vec<u64> {
+        self.state.call_stack.clone()
+    }
+
+    pub fn verif_trace(&self) -> Vec<VerifTraceEntry> {
+        self.state
+            .trace
+            .iter()
+            .map(|t| {
+                (
+                    t.instr_ip,
+                    t.target,
+                    match t.variant {
+                        TraceVariant::Call => 0,
+                        TraceVariant::Return => 1,
+                        TraceVariant::Jump => 2,
+                    },
+                    t.level,
+                    t.count,
+                )
+            })
+            .collect()
+    }
+
+    pub fn verif_symbols(&self) -> Vec<(u64, String)> {
+        self.symbol_table
+            .iter()
+            .map(|(k, v)| (*k, v.clone()))
+            .collect()
+    }
+}
